@@ -12,7 +12,7 @@ From Coq Require Import List Bool String.
 From UV.Base Require Import Cop Res.
 From UV.Gen Require Import Tables.
 From UV.Py Require Import PyStr.
-From UV.Schemes Require Import Common Generic LegacyOpenssl Semver SemverProofs.
+From UV.Schemes Require Import Common Generic LegacyOpenssl Semver SemverProofs Gem GemProofs.
 Import ListNotations.
 
 Lemma all_vclasses_complete c : In c all_vclasses.
@@ -52,8 +52,14 @@ Theorem C12_semver_equal_versions_hash_alike :
   forall a b, semver_eq a b = true -> semver_hasheq a b = true.
 Proof. exact semver_eq_hash. Qed.
 
+(* gem: == and the hash both look at the canonical segments; == is exactly the equivalence of the order *)
+Theorem C12_gem_equal_versions_hash_alike :
+  forall a b, (gem_eq a b = true -> gem_hasheq a b = true) /\ (gem_eq a b = true <-> gem_order a b = Eq).
+Proof. intros a b. split; [apply gem_eq_hash|apply gem_eq_iff_order]. Qed.
+
 Print Assumptions C12_every_version_class_is_hashable_and_frozen.
 Print Assumptions C12_containers_hash_what_they_compare.
 Print Assumptions C12_generic_equal_versions_hash_alike.
 Print Assumptions C12_legacy_openssl_equal_versions_hash_alike.
 Print Assumptions C12_semver_equal_versions_hash_alike.
+Print Assumptions C12_gem_equal_versions_hash_alike.
